@@ -1,4 +1,5 @@
 import GN.Driver.C10
+import GN.Driver.C12
 import GN.Driver.C19
 import GN.Driver.C20
 
@@ -10,6 +11,7 @@ def dispatch (line : String) : String :=
   if line.startsWith "#" then "COMMENT" else
   match (line.trimAscii.toString.splitOn " ").filter (· != "") with
   | "C10" :: rest => GN.Driver.C10.handle rest
+  | "C12" :: rest => GN.Driver.C12.handle rest
   | "C19" :: rest => GN.Driver.C19.handle rest
   | "C20" :: rest => GN.Driver.C20.handle rest
   | [] => "EMPTY"
